@@ -157,6 +157,8 @@ class Interp:
         self.trace_calls = []    # resolved call sites (for evidence)
         self.max_depth = 24
         self.roundings = None
+        self.entered = set()     # paths of every function/closure body that was analysed
+        self.loop_stack = []
 
     # ------------------------------------------------------------ fresh names
     def fresh(self, prefix):
@@ -277,6 +279,18 @@ class Interp:
             return self.select(('icmp', 'eq', idx, seq.idx), seq.val, self.seq_get(seq.seq, idx, state))
         if isinstance(seq, SeqMap):
             return self.subst_value(seq.elem, {seq.ivar: idx})
+        if isinstance(seq, SelV):
+            return self.select(seq.cond, self.seq_get(seq.a, idx, state), self.seq_get(seq.b, idx, state))
+        if isinstance(seq, SeqPush):
+            n = self.seq_len(seq.seq)
+            if idx == n:
+                return seq.val
+            c = mk_icmp('eq', idx, n)
+            if c == TRUE:
+                return seq.val
+            if c == FALSE:
+                return self.seq_get(seq.seq, idx, state)
+            return self.select(c, seq.val, self.seq_get(seq.seq, idx, state))
         if isinstance(seq, SeqSorted):
             ety = seq.seq.elem_ty if isinstance(seq.seq, SeqSym) else None
             return self.elem_value(('sorted', self.abstract(state, seq.seq)), idx, ety, state)
@@ -1002,6 +1016,7 @@ class Interp:
     # ------------------------------------------------------------ block execution
     def record_site(self, frame, state, kind, cond, line, detail=None):
         self.sites.append({
+            'loops': tuple(self.loop_stack),
             'fn': frame.f['path'], 'kind': kind, 'cond': cond, 'line': line,
             'facts': state.facts, 'guard': state.guard, 'detail': detail,
             'known': self.cond_known(state, cond), 'expanded': frame.f['from_expansion'],
@@ -1276,6 +1291,7 @@ class Interp:
         if self.depth > self.max_depth:
             raise Unsupported('call depth exceeded at %s' % f['path'])
         body = f['body']
+        self.entered.add(f['path'])
         fr = Frame(self, f, body, subst, self._new_fid())
         st = ctx.state.copy()
         st.guard = ()
@@ -1294,7 +1310,7 @@ class Interp:
         s2 = self.merge_states(rets)
         ret = s2.store.get(fr.root(0), Tup(()))
         store = {k: v for k, v in s2.store.items() if not (k[0] == 'L' and k[1] == fr.id)}
-        ctx.state = State(store, ctx.state.guard, ctx.state.facts | (s2.facts - st.facts if False else frozenset()))
+        ctx.state = State(store, ctx.state.guard, ctx.state.facts | s2.facts)
         return ret
 
     def call_closure(self, ctx, clos, args):
@@ -1430,7 +1446,11 @@ class Interp:
                 self.write(head, root, path, fv)
             sites_mark = len(self.sites)
             loops_mark = len(self.loops)
-            outs = self.run_blocks(frame, header, blocks, head.copy(), as_loop_body=True)
+            self.loop_stack.append(id(summ))
+            try:
+                outs = self.run_blocks(frame, header, blocks, head.copy(), as_loop_body=True)
+            finally:
+                self.loop_stack.pop()
             backs = outs.get(header, [])
             if not backs:
                 break
